@@ -1,6 +1,6 @@
 import Lean.Data.Json
 import PepperModel
-import Driver.Ops
+import Driver.Registry
 open Lean
 
 partial def loop (h : IO.FS.Stream) (out : IO.FS.Stream) : IO Unit := do
